@@ -679,16 +679,14 @@ func (e *Extractor) showTextArray(arr core.Array) {
 			hScale := e.gs.Text.HorizontalScaling / 100.0
 			adjustment := -float64(v) * e.gs.GetFontSize() * hScale / 1000.0
 
-			// Update text matrix
-			tm := e.gs.GetTextMatrix()
-			tm[4] += adjustment
-			e.gs.SetTextMatrix(tm)
+			// Update the text matrix only: the text line matrix, which Td,
+			// TD, T*, ' and " move relative to, is not changed by a TJ
+			// adjustment (ISO 32000-1 9.4.3, 9.4.4)
+			e.gs.Text.TextMatrix[4] += adjustment
 		case core.Real:
 			hScale := e.gs.Text.HorizontalScaling / 100.0
 			adjustment := -float64(v) * e.gs.GetFontSize() * hScale / 1000.0
-			tm := e.gs.GetTextMatrix()
-			tm[4] += adjustment
-			e.gs.SetTextMatrix(tm)
+			e.gs.Text.TextMatrix[4] += adjustment
 		}
 	}
 }
